@@ -55,6 +55,16 @@ func objectSchemas(dialect string) map[string]*schema.Schema {
 		t2.SetPrimaryKey(pk)
 		s2.AddTables(t2)
 		out["mysql-primary-key-prefix"] = s2
+		// a column whose collation differs from the table's while its charset is the table's
+		s3 := schema.New("app").AddAttrs(&schema.Charset{V: "utf8mb4"}, &schema.Collation{V: "utf8mb4_0900_ai_ci"})
+		t3 := schema.NewTable("notes").SetSchema(s3).AddAttrs(&schema.Charset{V: "latin1"}, &schema.Collation{V: "latin1_swedish_ci"})
+		c1 := &schema.Column{Name: "a", Type: &schema.ColumnType{Type: &schema.StringType{T: "varchar", Size: 32}, Raw: "varchar(32)"}}
+		c1.AddAttrs(&schema.Charset{V: "latin1"}, &schema.Collation{V: "latin1_bin"})
+		c2 := &schema.Column{Name: "b", Type: &schema.ColumnType{Type: &schema.StringType{T: "varchar", Size: 32}, Raw: "varchar(32)"}}
+		c2.AddAttrs(&schema.Charset{V: "latin1"}, &schema.Collation{V: "latin1_swedish_ci"})
+		t3.AddColumns(c1, c2)
+		s3.AddTables(t3)
+		out["mysql-collation-with-inherited-charset"] = s3
 	}
 	if dialect == "postgres" {
 		// types without their optional parameters, built as objects (what "no length" means must survive the round trip)
